@@ -125,6 +125,9 @@ func randSsaDoc(r *rng) *ssaDocGT {
 		e.End = t
 		if len(d.Styles) > 0 && r.chance(2, 3) {
 			e.Style = d.Styles[r.intn(len(d.Styles))].Name
+		} else if r.chance(1, 4) {
+			// a style name the styles section may not declare: the cue then has no style reference
+			e.Style = r.pick("Ghost", "Default", "Alt", "undeclared one")
 		}
 		if r.chance(1, 3) {
 			e.Name = r.pick("Bob", "Mary Ann")
@@ -1217,8 +1220,16 @@ func ssaDocsEqual(got, want *ssaDocGT, styleCols, eventCols map[string]bool) str
 		if g.Start != w.Start || g.End != w.End {
 			return fmt.Sprintf("event %d: [%d,%d) cs, want [%d,%d) cs", i+1, g.Start/1e7, g.End/1e7, w.Start/1e7, w.End/1e7)
 		}
-		if has("Style") && g.Style != w.Style {
-			return fmt.Sprintf("event %d: style %q, want %q", i+1, g.Style, w.Style)
+		// the style reference of a cue is a reference to a definition of the styles section: a name that section does
+		// not declare gives a cue without style reference
+		wStyle := ""
+		for _, st := range want.Styles {
+			if st.Name == w.Style {
+				wStyle = w.Style
+			}
+		}
+		if has("Style") && g.Style != wStyle {
+			return fmt.Sprintf("event %d: style %q, want %q", i+1, g.Style, wStyle)
 		}
 		if has("Name") && g.Name != w.Name {
 			return fmt.Sprintf("event %d: speaker %q, want %q", i+1, g.Name, w.Name)
